@@ -231,13 +231,28 @@ def load_grid(ctx):
 
 
 def select_rows(ctx, urows, drows):
+    """Rows (kernel, unit row, dtype row) in replay order.
+
+    The order matters for one class of defects only: state kept between calls (a converted constant
+    cached per unit with the precision of its first caller, ...).  Therefore the dtype rows are walked
+    in a different rotation for every unit row (so single precision comes first for many units), and
+    at the end a sample of the all-double rows is replayed once more, with the whole grid as history.
+    """
     rng = ctx.rng
+    done64 = []
+
+    def emit(k, u, d):
+        if all(v == 'float64' for v in d['D'].values()):
+            done64.append((k, u, d))
+        return k, u, d
+
     for k in sorted(urows):
         us, ds = urows[k], drows[k]
         if ctx.thorough or len(us) * len(ds) <= 400:
-            for u in us:
-                for d in ds:
-                    yield k, u, d
+            for i, u in enumerate(us):
+                r = i % len(ds)
+                for d in ds[r:] + ds[:r]:
+                    yield emit(k, u, d)
             continue
         seen = set()
         pairs = [(i, rng.randrange(len(ds))) for i in range(len(us))]
@@ -246,7 +261,10 @@ def select_rows(ctx, urows, drows):
         for i, j in pairs:
             if (i, j) not in seen:
                 seen.add((i, j))
-                yield k, us[i], ds[j]
+                yield emit(k, us[i], ds[j])
+    again = list(done64)
+    rng.shuffle(again)
+    yield from again[:3000 if ctx.thorough else 400]
 
 
 def run(ctx):
